@@ -203,6 +203,9 @@ def expected_kind(model, cls, ns, nil):
     return KIND.LEAF, None
 
 
+RETAINED = {}  # (class, namespace, none_is_leaf) -> (treespec of the instance, the registration's functions), per run
+
+
 def observe(model, types, instances, all_funcs, viol, site, probes):
     """Compare behaviour, mirror and engine snapshot with the model. Returns a comparable state vector."""
     U.HOOK = None
@@ -249,6 +252,23 @@ def observe(model, types, instances, all_funcs, viol, site, probes):
                             viol('mirror-mismatch', site, 'tree_flatten_one_level(%s, namespace=%r) served by %r, model says %r' % (cls.__name__, ns, [f.rid for f in served1], want_f.rid))
                     except Exception as e:  # noqa: BLE001
                         viol('mirror-mismatch', site, 'tree_flatten_one_level(%s, namespace=%r) raised %s: %s' % (cls.__name__, ns, type(e).__name__, e))
+                # a treespec KEPT from an earlier observation whose custom node was served by a registration that is not the
+                # current one any more (unregistered, replaced, shadowed): pushing the instance through it (flatten_up_to: every
+                # tree after the first of tree_map & co.) is flattening too - the stale registration's function must not run
+                kept = RETAINED.get((cls, ns, nil))
+                if kept is not None and kept[1] is not want_f and type(kept[1]) is U.Funcs:
+                    before = [f.flatten_calls for f in all_funcs]
+                    try:
+                        kept[0].flatten_up_to(inst)
+                        up_oc = 'accepted'
+                    except (ValueError, TypeError, RuntimeError) as e:
+                        up_oc = 'refused'
+                    probes['retained-spec:' + up_oc] += 1
+                    if kept[1].flatten_calls != before[all_funcs.index(kept[1])]:
+                        viol('behaviour-mismatch', site, 'flatten_up_to(%s instance) with a treespec kept from before the registry change (namespace=%r, none_is_leaf=%s) ran the flatten '
+                             'function of registration %r; the model says the current one is %r' % (cls.__name__, ns, nil, kept[1].rid, getattr(want_f, 'rid', None)))
+                if got_kind == KIND.CUSTOM and want_f is not None and served == [want_f]:
+                    RETAINED[(cls, ns, nil)] = (spec, want_f)
                 vec.append((cls.__name__, ns, nil, int(got_kind), tuple(f.rid for f in served)))
             # ---- Python-visible registry
             try:
@@ -325,6 +345,7 @@ def run_job(job, io):
 
 
 def _run_body(job, io, tape):
+    RETAINED.clear()
     violations, keys, probes = [], set(), collections.Counter()
     oplog = []
     types = universe_for_run()
